@@ -9,6 +9,7 @@
  *
  * The laws are stated relationally on the PUBLIC API: lookup(M, k) is what xcm_attr_map_get() returns. */
 #include "prelude.h"
+#include "_ghost.h"
 #include "xcm_attr_map.c"
 #include "env/base.h"
 #include "env/attrpath_env.h"
